@@ -757,30 +757,48 @@ def kernel_sig(repo, res):
                 res.fail(key, f"kernel signature of the C {kind} template instantiated for {t} differs from ufcx.h: {'; '.join(diff[:3])}",
                          tm.rel, props=("C09", "C04", "C20") if kind == "expression" else ("C09", "C20"))
     # which C types the generators instantiate {scalar_type} / {geom_type} with: GEN-INTEGRAL / GEN-EXPRESSION-DESC (generators interpreted per scalar type)
-    # dtype_to_c_type table
+    # dtype_to_c_type: interpreted with the dtype model on every spelling of the types a kernel can be generated for
+    from ..absint import Interp as _Iu, Raised as _Ru, _PyCall as _PCu
+    from ..lnodes_model import load_classes as _lcu
+    from ..npmodel import DT as _DTu, install as _install_np
+
     u = repo.mod("ffcx.codegeneration.utils")
     f = u.func("dtype_to_c_type")
     res.functions.add(f.key)
-    pairs = []
-    for n in walk_no_nested(f.node):
-        if isinstance(n, ast.If) and n.body and isinstance(n.body[0], ast.Return) and isinstance(n.body[0].value, ast.Constant):
-            pairs.append((ast.unparse(n.test), n.body[0].value.value))
-    want = {"== 'f'": "float", "== 'd'": "double", "np.complex64": "float _Complex", "np.complex128": "double _Complex", "== 'g'": "long double", "np.intc": "int"}
-    for frag, cty in want.items():
+    want = {"float32": "float", "float64": "double", "complex64": "float _Complex", "complex128": "double _Complex", "longdouble": "long double", "intc": "int"}
+    for nm_, cty in want.items():
         key = f"{f.key}:{cty}"
         res.ob(key)
-        hit = [c for t, c in pairs if frag in t]
-        if hit != [cty]:
-            res.fail(key, f"dtype_to_c_type maps the dtype tested by `{frag}` to {hit}, expected {cty!r}", u.line(f.node), props=("C09",))
-    # numba signature helper
+        for spelled in (nm_, _DTu(nm_), f"np.{nm_}"):
+            try:
+                got = _install_np(_Iu(repo, _lcu(repo), primary="ffcx.codegeneration.utils")).call_f(f, [spelled])
+            except _Ru as e_:
+                got = f"raises {e_.what}"
+            if got != cty:
+                res.fail(key, f"dtype_to_c_type({spelled!r}) gives {got!r}, expected {cty!r}: kernels and tables would be declared with another C type", u.line(f.node),
+                         props=("C09",))
+                break
+    # numba signature helper: interpreted with recording stand-ins for numba's type constructors
     nsig = u.func("numba_ufcx_kernel_signature")
     key = f"{nsig.key}:params"
     res.ob(key)
-    src = ast.unparse(nsig.node)
-    mm = re.search(r"types\.void\((.*?)\)\s*except", src, re.S) or re.search(r"types\.void\((.*)\)", src, re.S)
-    seq = re.findall(r"CPointer\(([^()]*(?:\([^()]*\))?)\)", mm.group(1)) if mm else []
-    if seq != ["from_dtype(dtype)", "from_dtype(dtype)", "from_dtype(dtype)", "from_dtype(xdtype)", "types.intc", "types.uint8", "types.void"]:
-        res.fail(key, f"numba kernel signature has pointer parameters {seq}", u.line(nsig.node), props=("C18", "C20"))
+    itn = _install_np(_Iu(repo, _lcu(repo), primary="ffcx.codegeneration.utils"))
+    itn.overrides["numba.types.CPointer"] = _PCu(lambda t: ("ptr", t))
+    itn.overrides["numba.types.intc"] = "intc"
+    itn.overrides["numba.types.uint8"] = "uint8"
+    itn.overrides["numba.from_dtype"] = _PCu(lambda d: ("dt", str(d)))
+
+    void = _PCu(lambda *a: ("sig",) + tuple(a))   # numba's `void` is a type and, called, a signature constructor
+    itn.overrides["numba.types.void"] = void
+    try:
+        sig_ = itn.call_f(nsig, ["complex64", "float32"])
+    except _Ru as e_:
+        sig_ = f"raises {e_.what}"
+    want_sig = ("sig", ("ptr", ("dt", "complex64")), ("ptr", ("dt", "complex64")), ("ptr", ("dt", "complex64")), ("ptr", ("dt", "float32")), ("ptr", "intc"), ("ptr", "uint8"),
+                ("ptr", void))
+    if sig_ != want_sig:
+        res.fail(key, f"numba kernel signature for (complex64, float32) is {sig_!r}; the UFCx kernel takes (A, w, c: scalar*; coordinate_dofs: real*; entity_local_index: int*; "
+                 "quadrature_permutation: uint8_t*; custom_data: void*)", u.line(nsig.node), props=("C18", "C20"))
     # what jit.py extracts from ufcx.h for the cffi cdef: the module's top level is interpreted on the header text (regular expressions are Python's own),
     # and the declarations it leaves in UFC_HEADER_DECL / UFC_INTEGRAL_DECL / UFC_FORM_DECL / UFC_EXPRESSION_DECL - assembled as compile_forms and
     # compile_expressions assemble them - are read back with the declaration reader used for ufcx.h itself: every kernel typedef and the three
